@@ -370,7 +370,8 @@ func c06Judge(x *engine.X, api int, s *wsSession, d delivered, vs *vstream.Strea
 }
 
 func c06Body(tier string) func(x *engine.X) {
-	lengths := []int{1, 0, 125, 126, 127, 65535, 65536, c06Max}
+	// (4093 and 4096: header + payload just beyond, and payload exactly at, the receive buffer's initial capacity)
+	lengths := []int{1, 0, 125, 126, 127, 4093, 4096, 65535, 65536, c06Max}
 	maxMsgs := 2
 	if tier == "thorough" {
 		maxMsgs = 3
@@ -444,7 +445,7 @@ func C06(tier string) *engine.Report {
 	tot.Add(ares, rep)
 	rep.Coverage["answering_reader"] = map[string]any{"executions": ares.Executions, "finished": ares.Exhaustive, "violations": len(ares.Violations)}
 	rep.Coverage["utf8_family"] = map[string]any{"executions": ures.Executions, "finished": ures.Exhaustive, "violations": len(ures.Violations)}
-	tot.Fill(rep, "sessions generated from choice points (message count, type, 8 payload length classes up to the maximum, fragmentation into <=3 fragments incl. empty ones, ping/pong (0, 5 or 125 bytes: the largest legal control payload) in any gap, a cut at any byte position or byte-by-byte delivery) "+
+	tot.Fill(rep, "sessions generated from choice points (message count, type, 10 payload length classes up to the maximum (incl. 4093 and 4096 around the receive buffer's initial capacity), fragmentation into <=3 fragments incl. empty ones, ping/pong (0, 5 or 125 bytes: the largest legal control payload) in any gap, a cut at any byte position or byte-by-byte delivery) "+
 		"x 4 read APIs x inline/deferred completion; all combinations of up to N deviations (fragmentation, control insertion, text type, extra message, each cut) from the default session; "+
 		"non-trivial = the stream was segmented or contained a control frame, or a deviation was taken; plus, over real TCP, every shape of an earlier session on the same Stream (dropped with unread input, queued replies, a failed write) x blocking/async handshake x 0-2 frames sent with the response: the second session delivers exactly what its server sent", d.MaxDeviations)
 	return rep
